@@ -680,7 +680,12 @@ class Interp:
         load.ctx = ast.Load()
         cur = self.eval(load, env)
         rhs = self.eval(st.value, env)
-        if isinstance(cur, Cell) and cur.kind == "arr":
+        if isinstance(cur, Cell) and cur.kind == "arr" and not (
+                cur.view_of is not None and
+                isinstance(st.target, ast.Subscript)):
+            # (a[k] op= v on a view a[k] of a: the in-place update of the
+            # view followed by the store of the view onto itself is the
+            # store of the new value: the assign path below)
             new = self.binop(st.op, cur, rhs)
             cur.write(self.unwrap(new))
             return
@@ -1605,8 +1610,9 @@ class Interp:
         modelled; its result is an uninspected value.  ASSUMED (reported):
         it terminates normally and does not mutate modelled state."""
         top = self.contract
-        if len(self.func_stack) == 1 and name in top.extra.get(
-                "opaque_callees", ()):
+        # (also inside callees that are inlined: their bodies are executed
+        # as part of the verified function)
+        if name in top.extra.get("opaque_callees", ()):
             self.stats.lib_used.add(f"opaque-callee:{name}")
             return True
         return False
